@@ -92,6 +92,8 @@ pub fn post<const N: usize>(buf: &mut FixedBuf<N>, out: &mut Vec<i128>) {
     guarded(out, |o| o.push(buf.len() as i128));
     guarded(out, |o| o.push(buf.writable().len() as i128));
     guarded(out, |o| enc_bytes(o, buf.readable()));
+    out.push(-5);
+    guarded(out, |o| enc_bytes(o, buf.mem()));
 }
 
 enum Step {
